@@ -341,7 +341,10 @@ func (t *TPacket) ReadPacketData() ([]byte, gopacket.CaptureInfo, error) {
 	if err != nil {
 		return nil, ci, err
 	}
-	return append([]byte(nil), d...), ci, nil
+	// afpacket: c := make([]byte, len(data)); copy(c, data) - cap == len (compared with the real socket by c20ring)
+	c := make([]byte, len(d))
+	copy(c, d)
+	return c, ci, nil
 }
 
 func (t *TPacket) WritePacketData(p []byte) (err error) {
